@@ -66,12 +66,12 @@ func mkTree() (string, error) {
 		return "", err
 	}
 	root, _ = filepath.EvalSymlinks(root)
-	for _, d := range uDirs {
+	for _, d := range append([]string{"by"}, uDirs...) {
 		if err := os.Mkdir(filepath.Join(root, d), 0o755); err != nil {
 			return root, err
 		}
 	}
-	for _, f := range uFiles {
+	for _, f := range append([]string{"by/x"}, uFiles...) {
 		if err := os.WriteFile(filepath.Join(root, f), []byte("contents of "+f+"\n"), 0o644); err != nil {
 			return root, err
 		}
@@ -108,8 +108,8 @@ func fdsInto(root string) []string {
 func (b *bystander) setupUfs() error {
 	steps := []*ref9p.Msg{
 		{Type: ref9p.Tattach, Fid: 20, Afid: ref9p.NOFID, Uname: "root", Aname: "", Nuname: 0},
-		{Type: ref9p.Twalk, Fid: 20, Newfid: 21, Wname: []string{"d0"}},
-		{Type: ref9p.Twalk, Fid: 20, Newfid: 22, Wname: []string{"a"}},
+		{Type: ref9p.Twalk, Fid: 20, Newfid: 21, Wname: []string{"by"}},
+		{Type: ref9p.Twalk, Fid: 20, Newfid: 22, Wname: []string{"by", "x"}},
 	}
 	for _, m := range steps {
 		r, err := b.C.RPC(m)
@@ -121,7 +121,7 @@ func (b *bystander) setupUfs() error {
 }
 
 func (b *bystander) probeUfs(when string) error {
-	want := map[uint32]string{21: "d0", 22: "a"}
+	want := map[uint32]string{21: "by", 22: "x"}
 	for _, fid := range []uint32{20, 21, 22, 23} {
 		r, err := b.C.RPC(&ref9p.Msg{Type: ref9p.Tstat, Fid: fid})
 		if err != nil {
@@ -222,9 +222,43 @@ func runUfs(c *Case, res *result) (err error) {
 		if r, err := vc.Version(8192, ver); err != nil || r.Type != ref9p.Rversion {
 			return &hangError{fmt.Sprintf("victim Tversion: %v", err)}
 		}
-		seqN := kf - 1 - c.Pipe
-		if seqN < 0 {
-			seqN = 0
+		// the last Pipe complete requests are written without waiting for
+		// their replies, as far as a client may do that: none of them names a
+		// fid that another one of them creates
+		seqN := kf - 1
+		creates, uses := map[uint32]bool{}, map[uint32]bool{}
+		for seqN > 0 && kf-1-seqN < c.Pipe {
+			o := &hist[seqN-1]
+			var cr, us []uint32
+			switch o.Kind {
+			case "attach":
+				cr = []uint32{o.Fid}
+			case "walk":
+				us = []uint32{o.Fid}
+				cr = []uint32{o.Newfid}
+			default:
+				us = []uint32{o.Fid}
+				if o.Kind != "read" {
+					cr = us // open/create/clunk/remove change the fid's state
+				}
+			}
+			conflict := false
+			for _, x := range cr {
+				conflict = conflict || uses[x] || creates[x]
+			}
+			for _, x := range us {
+				conflict = conflict || creates[x]
+			}
+			if conflict {
+				break
+			}
+			for _, x := range cr {
+				creates[x] = true
+			}
+			for _, x := range us {
+				uses[x] = true
+			}
+			seqN--
 		}
 		for i := 0; i < seqN; i++ {
 			if _, err := vc.RPC(hist[i].msg()); err != nil {
